@@ -16,6 +16,7 @@ RULE = ("cases = generated signature (0-3 required, 0-3 defaulted, *args, 0-2+0-
 ASSUMPTIONS = ['both spellings pass the very same objects', 'positional-only parameters are not generated (klepto predates them; no property lists them)']
 
 N = {'quick': 2500, 'thorough': 20000}
+FUZZ_SECONDS = 180      # thorough tier: coverage-guided campaign over the same strategy and oracle (tools/fuzz.py)
 SHARDS = {'quick': 4, 'thorough': 16}
 
 KEYMAPS = []
